@@ -1,10 +1,12 @@
 #!/bin/bash
 # tools/diag.sh <out.tsv> <seeded-id>...  — every given seeded change x the check of ITS OWN property (quick tier):
-# the regression test of the monitors after the harness changed.
+# the regression test of the monitors after the harness changed. Columns: id, property, rc, number of
+# violation observations not covered by a known finding (a small number = a catch that hangs on few cases).
 OUT=$1; shift
 for m in "$@"; do
   p=$(python3 -c "import json;print(json.load(open('/verif/seeded/$m/meta.json'))['property'])")
   /verif/tools/try_mutant.sh /verif/seeded/$m quick $p 2>&1 | grep "^== " | while read -r _ q rc rest; do
-    echo -e "$m\t$q\t$rc" >> "$OUT"
+    n=$(echo "$rest" | sed -n 's/.* \([0-9]*\) violation observations.*/\1/p')
+    echo -e "$m\t$q\t$rc\t$n" >> "$OUT"
   done
 done
